@@ -58,12 +58,45 @@ def case_key(case: Any) -> int:
     return hash(json.dumps(jsonable(case), sort_keys=True, separators=(",", ":")))
 
 
+class _CaseCpuLimit(BaseException):
+    """Raised (by a CPU-time interval timer) inside a case that has consumed far more processor time than any case needs."""
+
+
+CASE_CPU_LIMIT_S = float(os.environ.get("VERIF_CASE_CPU_S", "120"))     # main() lowers it to 30 s for the quick tier (no quick case needs 8 s)
+
+
+_STALLS: list = []          # stall verdicts of this worker process
+
+
+def _on_cpu_limit(signum, frame):
+    raise _CaseCpuLimit()
+
+
 def guarded(fn: Callable[[Any], Optional[tuple]], case: Any) -> Optional[tuple]:
     """Run a check function; an exception that was raised in, or below, code of the repository under test is a
     violation of the property being exercised (the library blew up on a legal use); an exception that never
-    entered the repository is a harness error and propagates."""
+    entered the repository is a harness error and propagates.
+
+    Every case runs on virtual time, so a case that burns two minutes of *processor* time of its own process (measured
+    by ITIMER_VIRTUAL, hence independent of machine load) is in a loop that does not terminate.  When the loop is in the
+    library (deepest frame in the repository under test) that is a violation; anywhere else it is a harness error."""
+    import signal
+    if len(_STALLS) >= 3:
+        # the library keeps running away: every further case of this shard would cost another full limit; report and skip
+        return _STALLS[-1]
+    armed = False
     try:
-        return fn(case)
+        signal.signal(signal.SIGVTALRM, _on_cpu_limit)
+        signal.setitimer(signal.ITIMER_VIRTUAL, CASE_CPU_LIMIT_S)
+        armed = True
+    except (ValueError, OSError, AttributeError):
+        pass            # not in the main thread / not available: no guard
+    try:
+        try:
+            return fn(case)
+        finally:
+            if armed:
+                signal.setitimer(signal.ITIMER_VIRTUAL, 0)
     except _Violation:
         raise
     except (KeyboardInterrupt, SystemExit, GeneratorExit):
@@ -79,6 +112,11 @@ def guarded(fn: Callable[[Any], Optional[tuple]], case: Any) -> Optional[tuple]:
             tb = tb.tb_next
         if inner_repo is not None:
             code = inner_repo.tb_frame.f_code
+            if isinstance(e, _CaseCpuLimit):
+                v = (f"stall/cpu-limit@{os.path.basename(code.co_filename)}:{code.co_name}",
+                     f"the library did not come back: more than {CASE_CPU_LIMIT_S:.0f} s of processor time spent, last seen in {code.co_name} ({os.path.basename(code.co_filename)})")
+                _STALLS.append(v)
+                return v
             return (f"crash/{type(e).__name__}@{os.path.basename(code.co_filename)}:{code.co_name}",
                     f"unexpected {type(e).__name__} from (or below) the library: {e!r}")
         raise
@@ -265,6 +303,12 @@ def _run_shard(args) -> dict:
     prop_id, tier, seed, shard, nshards = args
     t0 = time.time()
     try:
+        try:
+            import resource
+            lim = int(os.environ.get("VERIF_WORKER_MEM_GB", "6")) << 30
+            resource.setrlimit(resource.RLIMIT_AS, (lim, lim))      # a runaway allocation becomes a MemoryError in the case, not an OOM kill of the worker
+        except Exception:
+            pass
         from . import harness
         harness.setup()
         mod = importlib.import_module(f"vf.props.{prop_id.lower()}")
@@ -353,6 +397,9 @@ def main(argv=None) -> int:
         return 1
 
     shards_cfg = getattr(mod, "SHARDS", {"quick": 1, "thorough": 16})
+    global CASE_CPU_LIMIT_S
+    if "VERIF_CASE_CPU_S" not in os.environ and a.tier == "quick":
+        CASE_CPU_LIMIT_S = 30.0
     nshards = a.shards or shards_cfg.get(a.tier, 1)
     nshards = max(1, min(nshards, (os.cpu_count() or 1)))
     jobs = [(prop_id, a.tier, seed, s, nshards) for s in range(nshards)]
